@@ -15,5 +15,5 @@ vlib.ensure_coqproject()
 PY
 cd coq
 coq_makefile -f _CoqProject -o Makefile
-timeout 2400 make -k -j16 COQC="timeout 600 coqc" 2>&1 | grep -v '^COQC\|^COQDEP' | tail -20
+timeout 2400 make -k -j16 COQC="prlimit --as=17179869184 timeout 600 coqc" 2>&1 | grep -v '^COQC\|^COQDEP' | tail -20
 exit 0
